@@ -29,9 +29,20 @@ async def one_case(case):
             name = case.get('names', ['f%d.bin' % j for j in range(8)])[i]
             p = sub / name
             data = lib.content(case['seed'] * 100 + i, sz) if not case.get('identical') else lib.content(case['seed'], sz)
+            if case.get('blocks'):
+                # repeated blocks in a chosen order (fixed-size chunks: every letter is one chunk, equal letters equal chunks)
+                data = b''.join(lib.content(case['seed'] * 7 + ord(ch), case['max']) for ch in case['blocks'][i])
             p.write_bytes(data)
             os.utime(p, ns=(1_600_000_000_000_000_000 + i * 1_000_003, 1_500_000_000_123_456_789 + i * 7_000_001))
             files[str(p.resolve())] = data
+        alias = {}
+        if case.get('alias'):
+            # a second route to a directory of the tree: src/alias -> src/d0 (replicat follows directory symlinks inside a
+            # directory argument, so the files are part of the tree under BOTH routes)
+            (src / 'alias').symlink_to(src / 'd0', target_is_directory=True)
+            for k, v in files.items():
+                if k.startswith(str((src / 'd0').resolve()) + os.sep):
+                    alias[str(src.resolve() / 'alias' / os.path.basename(k))] = v
         args = []
         for a in case['args']:
             if a == 'dir':
@@ -53,7 +64,7 @@ async def one_case(case):
         for a in args:
             ra = a.resolve()
             if ra.is_dir():
-                for k, v in files.items():
+                for k, v in list(files.items()) + list(alias.items()):
                     if str(k).startswith(str(ra) + os.sep):
                         expected[k] = v
             else:
@@ -98,13 +109,15 @@ async def one_case(case):
         if sorted(expected) != recorded:
             problems.append({'problem': 'recorded paths differ', 'recorded': recorded[:6], 'expected': sorted(expected)[:6]})
         if problems:
-            return {'problems': problems[:4]}
+            return {'problems': problems[:4], 'snapshotted_sizes': [len(v) for v in expected.values()]}
     return None
 
 
 def classify(case, failure):
     """known-finding classes (witness predicates over the case)"""
-    if case['sizes'] and all(s == 0 for s in case['sizes']):
+    # D3: the files that were snapshotted (the arguments may select a subset of the tree) are all empty
+    sizes = failure.get('snapshotted_sizes') if isinstance(failure, dict) and failure.get('snapshotted_sizes') is not None else case['sizes']
+    if sizes and all(s == 0 for s in sizes):
         return 'D3'
     if any(a.startswith('symlink_file') for a in case['args']):
         return 'D14'
@@ -132,6 +145,13 @@ def cases(tier, seed):
     out.append(dict(base, sizes=[0, 7, 0, 200]))
     out.append(dict(base, sizes=[64, 64, 64], identical=True))
     out.append(dict(base, sizes=[100, 100], identical=True, encrypted=True))
+    # repeated chunks that are NOT adjacent, within a file and across files (fixed-size chunks)
+    for blocks in (['XYX'], ['XYXZYX'], ['XY', 'ZX', 'XY'], ['XXYXX', 'Y']):
+        for enc in (False, True):
+            out.append(dict(base, min=16, max=16, sizes=[16 * len(b) for b in blocks], blocks=blocks, encrypted=enc))
+    # a directory reachable by two routes inside the argument (symlinked sibling)
+    out.append(dict(base, sizes=[30, 70, 5, 0], nested=True, alias=True))
+    out.append(dict(base, sizes=[64, 1], nested=True, alias=True, encrypted=True, concurrent=1))
     # argument lists: repeats, overlaps, symlinks
     for args in (['file0', 'file0'], ['dir', 'file1'], ['dir', 'dir'], ['symlink_dir'], ['symlink_dir', 'dir'],
                  ['symlink_file0'], ['file0', 'symlink_file0'], ['file1', 'file0']):
@@ -147,7 +167,7 @@ def cases(tier, seed):
     # non-ASCII names, nested directories
     out.append(dict(base, sizes=[12, 40], names=['naïve 文.bin', 'sp ace.tmp'], nested=True))
     if tier == 'thorough':
-        for _ in range(150):
+        for _ in range(600):
             n = rnd.randint(1, 4)
             out.append(dict(base, sizes=[rnd.choice(fam) for _ in range(n)], encrypted=rnd.random() < 0.5,
                             concurrent=rnd.choice([1, 2, 5]), pre=rnd.choice(['absent', 'shorter', 'longer']),
